@@ -29,6 +29,7 @@ import (
 
 	"github.com/protolambda/zrnt/eth2/beacon/common"
 	"github.com/protolambda/ztyp/tree"
+	"github.com/protolambda/ztyp/view"
 	"pgregory.net/rapid"
 
 	"zrntverif/checks/c04/reg"
@@ -80,6 +81,72 @@ type htr interface {
 }
 
 // structView calls the struct's own View() / View(spec) conversion if it has one.
+// scribble overwrites, in place, every byte array reachable from the struct (roots, signatures, keys, vectors of
+// them, elements of slices): what a caller re-using its struct for the next value does.
+func scribble(v reflect.Value, depth int) {
+	if depth > 12 {
+		return
+	}
+	switch v.Kind() {
+	case reflect.Ptr, reflect.Interface:
+		if !v.IsNil() {
+			scribble(v.Elem(), depth+1)
+		}
+	case reflect.Struct:
+		for i := 0; i < v.NumField(); i++ {
+			if v.Field(i).CanSet() {
+				scribble(v.Field(i), depth+1)
+			}
+		}
+	case reflect.Array:
+		if v.Type().Elem().Kind() == reflect.Uint8 {
+			for i := 0; i < v.Len(); i++ {
+				v.Index(i).SetUint(0x5c)
+			}
+			return
+		}
+		for i := 0; i < v.Len(); i++ {
+			scribble(v.Index(i), depth+1)
+		}
+	case reflect.Slice:
+		if v.Type().Elem().Kind() == reflect.Uint8 {
+			for i := 0; i < v.Len(); i++ {
+				v.Index(i).SetUint(0x5c)
+			}
+			return
+		}
+		for i := 0; i < v.Len(); i++ {
+			scribble(v.Index(i), depth+1)
+		}
+	case reflect.Uint64, reflect.Uint32, reflect.Uint16, reflect.Uint8:
+		if v.CanSet() {
+			v.SetUint(v.Uint() ^ 0x5c)
+		}
+	}
+}
+
+// structViewObj is structView returning the view itself.
+func structViewObj(spec *common.Spec, v any) (vw any, has bool, err error) {
+	m := reflect.ValueOf(v).MethodByName("View")
+	if !m.IsValid() {
+		return nil, false, nil
+	}
+	mt := m.Type()
+	var args []reflect.Value
+	switch {
+	case mt.NumIn() == 0:
+	case mt.NumIn() == 1 && mt.In(0) == reflect.TypeOf(spec):
+		args = []reflect.Value{reflect.ValueOf(spec)}
+	default:
+		return nil, false, nil
+	}
+	out := m.Call(args)
+	if len(out) == 0 || (len(out) == 2 && !out[1].IsNil()) || out[0].Kind() == reflect.Ptr && out[0].IsNil() {
+		return nil, false, nil
+	}
+	return out[0].Interface(), true, nil
+}
+
 func structView(spec *common.Spec, v any) (root [32]byte, has bool, err error) {
 	m := reflect.ValueOf(v).MethodByName("View")
 	if !m.IsValid() {
@@ -112,6 +179,7 @@ type rootsInfo struct {
 	viewChecked, structViewChecked bool
 	derived                        int
 	rehashed                       bool
+	aliasChecked                   bool
 	atLimit, nonEmpty              int
 	nonDef, fixed                  bool
 }
@@ -200,6 +268,34 @@ func runRoots(c *Case) (*report.Failure, *rootsInfo) {
 			return report.Failf(c.Type+"/HashTreeRoot/struct.View()-differs-from-spec", "%s root of struct.View() %x, struct root %x, SSZ merkleization gives %x; value %s", tag, sroot, got, want, short(B)), info
 		}
 		info.structViewChecked = true
+		// the view made from a struct owns its content: re-using the struct afterwards must not reach into the tree
+		o3 := reg.Obj{Spec: p.Spec, V: mk()}
+		if err, _ := guard("aliasing", func() error {
+			if e := o3.Deserialize(B); e != nil {
+				return e
+			}
+			vw, ok, _ := structViewObj(p.Spec, o3.V)
+			if !ok {
+				return nil
+			}
+			tv, isV := vw.(view.View)
+			if !isV {
+				return nil
+			}
+			_ = tv.HashTreeRoot(hfn)
+			scribble(reflect.ValueOf(o3.V), 0)
+			vb, e := reg.ViewBytes(tv)
+			if e != nil {
+				return nil
+			}
+			if !bytes.Equal(vb, B) {
+				return fmt.Errorf("after the caller overwrote its struct, the view made from it serializes differently: %s", refssz.DiffBytes(t, B, vb))
+			}
+			info.aliasChecked = true
+			return nil
+		}); err != nil {
+			return report.Failf(c.Type+"/View()/aliases-caller-struct", "%s %v; value %s", tag, err, short(B)), info
+		}
 	}
 	// the same OBJECT hashed again after it was overwritten with another value (fixed-size types: their decoders
 	// document re-use of the destination): a root remembered on the object, or anywhere keyed by it, would be stale
@@ -388,6 +484,9 @@ func TestCheck(t *testing.T) {
 		}
 		if info.rehashed {
 			r.Class("roots:same-object-rehashed-after-overwrite")
+		}
+		if info.aliasChecked {
+			r.Class("roots:struct.View()-independent-of-the-struct-afterwards")
 		}
 		if info.derived > 0 {
 			r.Hit("roots:derived-forms(header,shallow-body)")
